@@ -2,7 +2,7 @@
 (* C14: products of what the three markup sources provide *)
 EXTENDS Markup
 \* reduced pattern set for the quick tier (rotation by index mod 3 only)
-QPats == {"P", "A", "U", "R0", "R1", "R2"}
+QPats == {"P", "A", "U", "S", "R0", "R1", "R2"}
 Order0 == {0}
 QRels == {"none", "present"}
 ====
